@@ -42,13 +42,16 @@ pub fn boundary_of(l: u8) -> CharacterBoundary {
 }
 
 /// Builds a sentence through the public API only: from_raw, boundaries_mut, reset_tags, tags_mut.
-pub fn build_sentence<'b>(rs: &RefSentence) -> Sentence<'static, 'b> {
+pub fn build_sentence<'b>(rs: &RefSentence) -> Sentence<'static, 'b>
+where
+    'static: 'b,
+{
     let mut s = Sentence::from_raw(rs.text()).expect("from_raw on generated text");
     apply_annotations(&mut s, rs);
     s
 }
 
-pub fn apply_annotations(s: &mut Sentence, rs: &RefSentence) {
+pub fn apply_annotations<'b>(s: &mut Sentence<'_, 'b>, rs: &RefSentence) {
     for (b, &l) in s.boundaries_mut().iter_mut().zip(&rs.labels) {
         *b = boundary_of(l);
     }
@@ -57,9 +60,28 @@ pub fn apply_annotations(s: &mut Sentence, rs: &RefSentence) {
     let tags = s.tags_mut();
     for (i, ts) in rs.tags.iter().enumerate() {
         for (j, t) in ts.iter().enumerate() {
-            tags[i * k + j] = t.as_ref().map(|t| Cow::Owned(t.clone()));
+            // tags arrive as owned strings (parsers) or as borrowed ones (fill_tags, literals): use both
+            tags[i * k + j] = t.as_ref().map(|t| if (t.len() + i + j) % 3 == 0 { Cow::Borrowed(intern(t)) } else { Cow::Owned(t.clone()) });
         }
     }
+}
+
+/// Leaks one copy of each distinct string (bounded by the workload size of one worker process).
+pub fn intern(s: &str) -> &'static str {
+    use std::cell::RefCell;
+    use std::collections::HashSet;
+    thread_local! {
+        static POOL: RefCell<HashSet<&'static str>> = RefCell::new(HashSet::new());
+    }
+    POOL.with(|p| {
+        let mut p = p.borrow_mut();
+        if let Some(x) = p.get(s) {
+            return *x;
+        }
+        let l: &'static str = Box::leak(s.to_string().into_boxed_str());
+        p.insert(l);
+        l
+    })
 }
 
 #[derive(Clone, Debug, PartialEq, Eq)]
@@ -81,6 +103,10 @@ pub struct Obs {
     pub scores: Vec<i32>,
     pub tokens: Vec<TokenObs>,
     pub token_overflow: bool,
+    /// number of tokens reported after one `next()` by an internal-iteration consumer (`count`)
+    pub count_after_first: Option<usize>,
+    /// span of the last token reported after one `next()` by `last()`
+    pub last_after_first: Option<(usize, usize)>,
     pub tokenized: String,
     pub tokenized_utf8_ok: bool,
     pub partial: String,
@@ -116,6 +142,16 @@ pub fn observe(s: &Sentence, with_cands: bool) -> Obs {
             );
         }
     }
+    let (mut count_after_first, mut last_after_first) = (None, None);
+    if !token_overflow {
+        // consumers that do not go through next() (fold-based: count, last, for_each)
+        let mut it = s.iter_tokens();
+        it.next();
+        count_after_first = Some(it.count());
+        let mut it = s.iter_tokens();
+        it.next();
+        last_after_first = it.last().map(|t| (t.start(), t.end()));
+    }
     let mut tokenized = String::from("junk");
     let mut partial = String::from("junk");
     if !token_overflow {
@@ -132,6 +168,8 @@ pub fn observe(s: &Sentence, with_cands: bool) -> Obs {
         scores: s.boundary_scores().to_vec(),
         tokens,
         token_overflow,
+        count_after_first,
+        last_after_first,
         tokenized,
         tokenized_utf8_ok,
         partial,
